@@ -309,15 +309,30 @@ Definition cfg_args_ok (ncross nparent : nat) (nmating nprogeny : matpar) : bool
 (** * 11. UsefulnessCriterionIntegerSelection.problem (UsefulnessCriterionSelection.py l.998-1000): bounds of the decision space,
       one entry per candidate cross of the map:
         decn_space_lower = numpy.repeat(0, len(xmap))
-        decn_space_upper = numpy.repeat(self.ncross * self.nparent * self.nmating, len(xmap))
+        decn_space_upper = numpy.repeat(self.nparent * numpy.sum(self.nmating), len(xmap))
         decn_space = numpy.stack([decn_space_lower, decn_space_upper])
-      self.nmating is the protocol's ARRAY (one entry per cross); numpy.repeat of an array repeats EVERY element len(xmap)
-      times, numpy.stack raises ValueError unless both rows have the same length (finding C07-uc-integer-bounds-shape) *)
+      self.nmating is the protocol's ARRAY (one entry per cross); its sum is the number of matings of the whole cross design, so
+      ONE number is repeated len(xmap) times.  numpy.stack raises ValueError unless both rows have the same length.
+      Before the repair (finding C07-uc-integer-bounds-shape, fixed) the upper bound was
+        numpy.repeat(self.ncross * self.nparent * self.nmating, len(xmap))
+      numpy.repeat of an array repeats EVERY element len(xmap) times: ncross * len(xmap) entries against len(xmap) of the lower
+      bound ([old_uc_int_bounds], kept as the regression witness). *)
 Definition np_repeat_arr (a : list Z) (n : nat) : list Z := flat_map (fun v => repeat v n) a.
+Definition np_stack2 (lower upper : list Z) : option (list Z * list Z) :=
+  if Nat.eqb (length lower) (length upper) then Some (lower, upper) else None.
+Definition uc_int_upper (nparent : nat) (nmating : list Z) : Z := (Z.of_nat nparent * sumZ nmating)%Z.
 Definition uc_int_bounds (ncross nparent : nat) (nmating : list Z) (nxmap : nat) : option (list Z * list Z) :=
   let lower := repeat 0%Z nxmap in
+  let upper := repeat (uc_int_upper nparent nmating) nxmap in
+  np_stack2 lower upper.
+Definition old_uc_int_bounds (ncross nparent : nat) (nmating : list Z) (nxmap : nat) : option (list Z * list Z) :=
+  let lower := repeat 0%Z nxmap in
   let upper := np_repeat_arr (map (fun m => Z.of_nat ncross * Z.of_nat nparent * m)%Z nmating) nxmap in
-  if Nat.eqb (length lower) (length upper) then Some (lower, upper) else None.
+  np_stack2 lower upper.
+(** a decision vector lies in the decision space *)
+Definition in_bounds (b : list Z * list Z) (x : list Z) : bool :=
+  Nat.eqb (length x) (length (fst b)) && Nat.eqb (length x) (length (snd b)) &&
+  forallb (fun p => (fst p <=? snd p)%Z) (combine (fst b) x) && forallb (fun p => (fst p <=? snd p)%Z) (combine x (snd b)).
 Definition is_none {A} (o : option A) : bool := match o with None => true | Some _ => false end.
 
 (** * 12. object lifecycle of a configuration: the fields a sampling reads, the operations that change them.
